@@ -135,3 +135,33 @@ Section Forward.
     | QFault o => if hits_shared c o then [] else [o]
     end.
 End Forward.
+
+(* ---- (C) the target node's polling lookup (cross_node_session.go lookupTunnelRouting; handleLocalBridgeWait has the same
+   loop): look up; on NotFound/Expired sleep [interval], then interval *= factor, capped at pollMaxInterval; repeat.
+   [poll_interval init factor cap k] is the sleep after the k-th miss.  [poll_run] runs the rounds: between two polls the
+   rest of the cluster performs an arbitrary history (which includes the passing of the sleep interval). *)
+Fixpoint poll_interval (init factor cap : N) (k : nat) : N :=
+  match k with
+  | O => init
+  | S k' => N.min (poll_interval init factor cap k' * factor) cap
+  end.
+
+Section Poll.
+  Variable gstr : Type.
+  Variable enc : waiting -> gstr.
+  Variable dec : gstr -> option waiting.
+  Variable decm : gstr -> option waiting.
+  Variable of_addr : str -> gstr.
+  Variable to_addr : gstr -> str.
+  Variable keep : cell -> N -> bool.
+
+  (* index of the first poll that resolves, and its answer; None: still polling when the rounds are exhausted *)
+  Fixpoint poll_run (c : cfg) (s : state gstr) (n : nat) (t : str) (rounds : list (list op)) (i : nat) : option (nat * waiting) :=
+    match lookup gstr enc dec decm of_addr to_addr keep c s n t with
+    | ROk r => Some (i, r)
+    | _ => match rounds with
+           | [] => None
+           | h :: rest => poll_run c (final gstr enc dec decm of_addr to_addr keep c s h) n t rest (S i)
+           end
+    end.
+End Poll.
